@@ -1,6 +1,6 @@
 #!/bin/bash
 # usage: tools/sweep.sh <tier> <seed> [<seed> ...] : every check on the unchanged tree
-cd /verif
+cd "$(dirname "$(realpath "$0")")/.." || exit 2
 tier=$1; shift
 for sd in "$@"; do
   for c in C01 C02 C03 C04 C05 C06 C07 C08 C09 C10 C11 C12 C13 C14 C15 C16 C17 C18 C19 C20; do
